@@ -909,7 +909,9 @@ impl GlyphDataOffsetArray for Gvar<'_> {
             flags &= 0b11111110;
         }
 
-        let max_new_size = orig_size + offsets.data.len();
+        // The new offsets array can be larger than the original one (short -> long offsets), so
+        // it has to be accounted for on top of the original table size.
+        let max_new_size = orig_size + offsets.offset_array.len() + offsets.data.len();
 
         // part 1 and 2 - write gvar header and offsets
         let mut serializer = Serializer::new(max_new_size);
